@@ -128,7 +128,7 @@ Theorem twin_derived_values_equal :
 Proof. exact C07.ProofsTwin.twin_derived_values_equal. Qed.
 Print Assumptions twin_derived_values_equal.
 
-(* reported absolute pressures: p_abs_from/to always; p_abs_mean (2/3 (a^3-b^3)/(a^2-b^2) vs 2(a^3-b^3)/(3(a^2-b^2)), same isclose test) when p_from_abs + p_to_abs <> 0 *)
+(* reported absolute pressures: p_abs_from/to always; p_abs_mean (symmetric form 2/3 (a^2+ab+b^2)/(a+b) vs 2(a^2+ab+b^2)/(3(a+b)), no mask since /repo c6a5196) when p_from_abs + p_to_abs <> 0 *)
 Theorem twin_gas_pressures_equal :
   forall (bp_FROM_NODE_T_SWITCHED bp_TOUTINIT : R) (fl_compressibility : R -> R -> R) (np_from_PAMB np_from_TINIT np_to_PAMB np_to_TINIT p_from p_to v_mps : R),
   gasres_np_p_abs_from bp_FROM_NODE_T_SWITCHED bp_TOUTINIT fl_compressibility np_from_PAMB np_from_TINIT np_to_PAMB np_to_TINIT p_from p_to v_mps = gaspress_nb_p_abs_from np_from_PAMB np_to_PAMB p_from p_to /\
@@ -137,6 +137,16 @@ Theorem twin_gas_pressures_equal :
    gasres_np_p_abs_mean bp_FROM_NODE_T_SWITCHED bp_TOUTINIT fl_compressibility np_from_PAMB np_from_TINIT np_to_PAMB np_to_TINIT p_from p_to v_mps = gaspress_nb_p_abs_mean np_from_PAMB np_to_PAMB p_from p_to).
 Proof. exact C07.ProofsTwin.twin_gas_pressures_equal. Qed.
 Print Assumptions twin_gas_pressures_equal.
+
+(* the reported mean pressure (symmetric form, both engines) is the mean of the quadratic pressure profile in EVERY case *)
+Theorem pm_symmetric_form :
+  forall (bp_FROM_NODE_T_SWITCHED bp_TOUTINIT : R) (fl_compressibility : R -> R -> R) (np_from_PAMB np_from_TINIT np_to_PAMB np_to_TINIT p_from p_to v_mps : R),
+  let a := np_from_PAMB + p_from in let b := np_to_PAMB + p_to in
+  a + b <> 0 ->
+  (a <> b -> gasres_np_p_abs_mean bp_FROM_NODE_T_SWITCHED bp_TOUTINIT fl_compressibility np_from_PAMB np_from_TINIT np_to_PAMB np_to_TINIT p_from p_to v_mps = 2 / 3 * (a ^ 3 - b ^ 3) / (a ^ 2 - b ^ 2)) /\
+  (a = b -> gasres_np_p_abs_mean bp_FROM_NODE_T_SWITCHED bp_TOUTINIT fl_compressibility np_from_PAMB np_from_TINIT np_to_PAMB np_to_TINIT p_from p_to v_mps = a).
+Proof. exact C07.ProofsTwin.pm_symmetric_form. Qed.
+Print Assumptions pm_symmetric_form.
 
 (* norm factors and gas velocities: the numba wrapper (pressures -> compressibility at the direction-corrected inlet temperature tf -> get_gas_vel_numba) equals the numpy function, direction-switched branches included (since /repo bfae2a5 the wrapper passes tf to get_gas_vel_numba) *)
 Theorem twin_gas_normfactors_equal :
